@@ -136,7 +136,7 @@ impl Read for SimSource {
             log.op.faults.push(format!("{:?}", kind));
             log.total_faults += 1;
             log.ev(3, call as u64, kind as u64);
-            return Err(io::Error::new(kind, "injected source fault"));
+            return Err(io::Error::from(kind));
         }
         // scripted decision
         let mut want = usize::MAX;
@@ -149,7 +149,7 @@ impl Read for SimSource {
                     log.op.interrupts += 1;
                     log.total_interrupts += 1;
                     log.ev(2, call as u64, 0);
-                    return Err(io::Error::new(ErrorKind::Interrupted, "injected EINTR"));
+                    return Err(io::Error::from(ErrorKind::Interrupted));
                 }
             } else {
                 want = d as usize;
@@ -206,7 +206,7 @@ impl Seek for SimSource {
             log.op.faults.push(format!("{:?}", kind));
             log.total_faults += 1;
             log.ev(5, call as u64, kind as u64);
-            return Err(io::Error::new(kind, "injected seek fault"));
+            return Err(io::Error::from(kind));
         }
         let new = match pos {
             SeekFrom::Start(p) => p as i128,
@@ -266,7 +266,7 @@ impl Write for SimSink {
         if let Some((k, kind)) = self.fail_at {
             if k == call {
                 self.faults += 1;
-                return Err(io::Error::new(kind, "injected sink fault"));
+                return Err(io::Error::from(kind));
             }
         }
         let mut want = usize::MAX;
@@ -277,7 +277,7 @@ impl Write for SimSink {
                 if self.consecutive_intr < 6 {
                     self.consecutive_intr += 1;
                     self.interrupts += 1;
-                    return Err(io::Error::new(ErrorKind::Interrupted, "injected EINTR"));
+                    return Err(io::Error::from(ErrorKind::Interrupted));
                 }
             } else {
                 want = d as usize;
